@@ -1,6 +1,9 @@
 package main
 
 import (
+	"fmt"
+	"go/token"
+	"go/types"
 	"strings"
 
 	"golang.org/x/tools/go/ssa"
@@ -48,8 +51,69 @@ func propC18(c *Ctx) {
 	ri := c.Rule("index", "every index expression on the decode path is proven 0 <= i < len(operand) by dominating comparisons (fixed tables such as opWidth included)", 5)
 	rp := c.Rule("panic-reach", "no explicit panic statement on the decode path", 0)
 	rn := c.Rule("nil-call", "no method call on a map element read without a presence test on the decode path (absent key = nil interface = nil dereference panic)", 0)
+	rdn := c.Rule("decode-nonnil", "DecodeObject never returns a nil object together with a nil error (callers call methods on the result): every success return yields a value that is non-nil by construction or was tested non-nil", 5)
+	ruleDecodeNonNil(c, rdn)
 	fns := decodeFuncs(c, rs)
 	ruleNilCall(c, rn, fns)
 	c.extra["decode_path_functions"] = len(fns)
 	scanSinks(c, fns, sinkRules{assert: ra, alloc: rl, slice: rs, index: ri, panics: rp})
+}
+
+// ruleDecodeNonNil: success returns of DecodeObject carry a non-nil object.
+func ruleDecodeNonNil(c *Ctx, rule string) {
+	l := c.L
+	fn := l.Func(encPath, "DecodeObject")
+	if !c.Anchor(rule, "encoder.DecodeObject", fn != nil) {
+		return
+	}
+	for _, b := range fn.Blocks {
+		ret, ok := b.Instrs[len(b.Instrs)-1].(*ssa.Return)
+		if !ok || len(ret.Results) != 2 {
+			continue
+		}
+		if cst, ok := ret.Results[1].(*ssa.Const); !ok || !cst.IsNil() {
+			continue
+		}
+		v := ret.Results[0]
+		good, why := false, ""
+		switch x := v.(type) {
+		case *ssa.MakeInterface:
+			good = true
+			// a pointer wrapped into the interface must itself be non-nil: address of a local / fresh alloc
+			if _, isPtr := x.X.Type().Underlying().(*types.Pointer); isPtr {
+				switch x.X.(type) {
+				case *ssa.Alloc, *ssa.ChangeType, *ssa.Convert:
+				default:
+					good, why = false, "wraps a pointer that is not a fresh allocation"
+				}
+			}
+		case *ssa.UnOp:
+			// load of a package-level singleton (Undefined, True, False) or of a local that was tested
+			if _, isG := x.X.(*ssa.Global); isG {
+				good = true
+			}
+		case *ssa.Const:
+			good, why = !x.IsNil(), "returns a nil object with a nil error"
+		}
+		if !good {
+			for _, g := range guardEdges(b) {
+				bo, ok := g.If.Cond.(*ssa.BinOp)
+				if !ok {
+					continue
+				}
+				for _, pr := range [][2]ssa.Value{{bo.X, bo.Y}, {bo.Y, bo.X}} {
+					if cst, ok := pr[1].(*ssa.Const); ok && cst.IsNil() && (pr[0] == v || exprEq(pr[0], v)) {
+						if (bo.Op == token.NEQ && g.Truth) || (bo.Op == token.EQL && !g.Truth) {
+							good = true
+						}
+					}
+				}
+			}
+		}
+		if why == "" {
+			why = "the returned object is not proven non-nil"
+		}
+		c.Check(rule, fmt.Sprintf("DecodeObject | return %s, nil", describe(v)), l.Pos(ret.Pos()), good, "non-nil by construction or tested",
+			why+": a gob stream carrying a nil interface decodes to (nil, nil) and the caller's method call on it panics (12-byte input 00 75 47 4f 00 02 03 ff 03 10 00 00)")
+	}
 }
